@@ -19,7 +19,16 @@ from typing_extensions import deprecated
 from pyxel import __version__ as version
 from pyxel.options import global_options
 from pyxel.outputs import SaveToFileProtocol, ValidFormat, apply_run_number
-from pyxel.outputs.utils import to_csv, to_fits, to_hdf, to_jpg, to_npy, to_png, to_txt
+from pyxel.outputs.utils import (
+    to_csv,
+    to_fits,
+    to_hdf,
+    to_jpeg,
+    to_jpg,
+    to_npy,
+    to_png,
+    to_txt,
+)
 from pyxel.util import complete_path
 
 if TYPE_CHECKING:
@@ -57,7 +66,7 @@ def _save_data_2d(
         "csv": to_csv,
         "png": to_png,
         "jpg": to_jpg,
-        "jpeg": to_jpg,
+        "jpeg": to_jpeg,
     }
 
     if prefix:
@@ -790,7 +799,7 @@ class Outputs:
             "csv": to_csv,
             "png": to_png,
             "jpg": to_jpg,
-            "jpeg": to_jpg,
+            "jpeg": to_jpeg,
         }
 
         all_filenames: dict[str, dict[str, str]] = {}
